@@ -1385,7 +1385,7 @@ struct Case {
                     const auto jids = rm->getRosterBareJids();
                     for (const auto &j : jids) {
                         auto e = rm->getRosterEntry(j);
-                        QJsonObject eo { { "name", e.name() }, { "sub", int(e.subscriptionType()) } };
+                        QJsonObject eo { { "name", e.name() }, { "sub", int(e.subscriptionType()) }, { "ask", e.subscriptionStatus() }, { "approved", e.isApproved() } };
                         QJsonArray groups;
                         auto gl = e.groups().values();
                         std::sort(gl.begin(), gl.end());
